@@ -5,6 +5,13 @@ STREAM = ("C01", "C02", "C03", "C04", "C08", "C09", "C12", "C13", "C17", "C18")
 
 
 def register(reg):
+    # block arithmetic with a symbolic period, proved once in isolation and instantiated at `n0s = ...`
+    reg.arith_lemma("block_base", ["e", "p"], ["p >= 1", "e >= 1"],
+                    "((e - 1) // p) * p <= e - 1 and e - 1 < ((e - 1) // p) * p + p and "
+                    "(((e - 1) // p) * p) % p == 0 and ((e - 1) // p) * p >= 0",
+                    props=("C01", "C02", "C13"))
+    reg.arith_lemma("block_of_boundary", ["e", "p"], ["p >= 1", "e >= 1", "e % p == 0"],
+                    "((e - 1) // p) * p + p == e", props=("C01", "C02", "C13"))
     reg.add_class(ClassSpec(
         "TwoLevelCheckpointSchedule", "twolevel_binomial", bases=("CheckpointSchedule",),
         fields=[("_period", "int"), ("_binomial_snapshots", "int"), ("_binomial_storage", "storage"),
@@ -69,8 +76,15 @@ def register(reg):
         params=[("self", "obj")],
         requires=[("fresh_n", "self._n == 0"), ("fresh_r", "self._r == 0"),
                   ("fresh_max_n", "self._max_n is None")],
-        frame=["_n", "_r", "_max_n"], props=STREAM, exc_props={"*": ("C17", "C01")},
+        frame=["_n", "_r", "_max_n"], props=STREAM, exc_props={"*": ("C17", "C01", "C02")},
         locals={"snapshots": ("list", ["int"])},
+        hints={"n0s": [
+            ("use", "block_base", ["g.N - g.adj", "self._period"]),
+            ("use", "block_of_boundary", ["g.N - g.adj", "self._period"]),
+            ("base_is_multiple_of_period", "n0s % self._period == 0"),
+            ("base_bounds", "0 <= n0s and n0s <= n and n < n0s + self._period"),
+            ("block_ends_at_adjoint_position",
+             "g.N - g.adj == g.N or n0s + self._period == g.N - g.adj")]},
         hooks={"module": "ghost", "init": "tl_init", "emit_Forward": "tl_forward",
                "emit_EndForward": "tl_end_forward", "emit_Reverse": "tl_reverse", "emit_Copy": "tl_copy",
                "emit_Move": "tl_move", "emit_EndReverse": "tl_end_reverse",
